@@ -18,6 +18,7 @@ type evalCtx struct {
 	cnt   map[string]string
 	inOld bool
 	err   []string
+	reads map[string]bool // when non-nil: heap arrays read while evaluating (objinv stability lint)
 	usedLocal bool // the expression refers to a local variable of the callee (meaningless at a call site)
 }
 
@@ -51,6 +52,9 @@ func (ev *evalCtx) fail(format string, a ...interface{}) Val {
 
 func (ev *evalCtx) read(name, sort, ref string) string {
 	st := ev.st
+	if ev.reads != nil {
+		ev.reads[name] = true
+	}
 	if ev.heap != nil {
 		return "(select " + st.arrIn(ev.heap, name, sort) + " " + ref + ")"
 	}
@@ -627,6 +631,37 @@ func (ev *evalCtx) call(e *SExpr) Val {
 		ev.heap = snap
 		v := ev.eval(e.Args[1])
 		ev.heap = save
+		return v
+	case "lastrecvok":
+		// ok of the most recent channel receive of this function (false: it found the channel closed)
+		if ev.fr.lastRecvOk == "" {
+			return ghost("true", "Bool")
+		}
+		return ghost(ev.fr.lastRecvOk, "Bool")
+	case "iterstart":
+		// iterstart(N, expr): value of expr at the start of the current iteration of loop N
+		// (at the loop's entry check, before any iteration: the current state)
+		if len(e.Args) != 2 || e.Args[0].Op != "int" {
+			return ev.fail("iterstart(N, e)")
+		}
+		n := int(e.Args[0].Int)
+		snap := ev.fr.iterStart[n]
+		if snap == nil {
+			return ev.eval(e.Args[1])
+		}
+		save, saveC, saveF := ev.heap, ev.cnt, ev.fr
+		ev.heap = snap
+		ev.cnt = ev.fr.iterStartCnt[n]
+		if ev.cnt == nil {
+			ev.cnt = map[string]string{}
+		}
+		if nn := ev.fr.iterStartNames[n]; nn != nil {
+			fc := *ev.fr
+			fc.names = nn
+			ev.fr = &fc
+		}
+		v := ev.eval(e.Args[1])
+		ev.heap, ev.cnt, ev.fr = save, saveC, saveF
 		return v
 	case "loopentry":
 		// loopentry(N, expr): value of expr at entry of loop N
